@@ -72,6 +72,23 @@ def run(cx):
                                   "active Error(Timeout)", why="a connection may only be reported timed out once now >= its deadline", fa=fa)
             if "Active" not in seen:
                 inst.violation(b.path, "active timeout", "no Error(Timeout) push in the Active arm of %s (anchor)" % fn)
+            # exactness ("reported within one step once that much silence has elapsed"): the report may depend on
+            # nothing of the connection's state but its variant and its deadline / retry budget
+            allowed = {"Active": ("timeout_time_ms",), "Pending": ("resend_count", "resend_time_ms"), "Closing": ("resend_count", "resend_time_ms")}
+            for l, lab in event_pushes(b, r"Error\{.*Timeout"):
+                for alt in fa.at(l):
+                    for lit in sorted(alt):
+                        m = re.match(r"is\((.*\.state|.*),(Active|Pending|Closing)\)$", lit)
+                        if not m or ".state" not in m.group(1):
+                            continue
+                        pref = "%s@%s.0." % (m.group(1), m.group(2))
+                        for other in sorted(alt):
+                            for fld in re.findall(re.escape(pref) + r"(\w+)", other):
+                                inst.site(b, l, "report in %s conditioned on %s" % (m.group(2), fld))
+                                if fld not in allowed[m.group(2)]:
+                                    inst.violation(b.path, "Error(Timeout) in %s also conditioned on %s" % (m.group(2), fld),
+                                                   "the timeout report in the %s arm is reached only under `%s`: once the deadline has passed it must be reported in this step whatever else the connection is doing"
+                                                   % (m.group(2), other), at=b.span_at(l))
         order = {
             "client::Client::step": ["Client::flush_if_active", "Client::handle_frames", "Client::handle_events", "Client::step_if_active"],
             "server::Server::step": ["Server::flush_active_clients", "Server::handle_frames", "Server::handle_events", "Server::step_active_clients"],
@@ -260,6 +277,10 @@ def run(cx):
     heap_order(cx, "C10.j", ["event"])
     from props.shared import active_timeout_sweep
     active_timeout_sweep(cx, "C10.k")
+    # the keepalive cadence is max(rto, 2000 ms) and the RTO is 2*MSS/X when the rate is low: a rate computed from an
+    # RTT in the wrong unit (1000x) spaces keepalives further apart than the timeout
+    from props.C14 import inst_time_units
+    inst_time_units(cx, "C10.l")
 
 
 SELFTEST = [
